@@ -46,7 +46,7 @@ def sortkind_cases():
 def main():
     c = vf.Check("C02")
     (asan,) = c.build("h_template.asan")
-    n = 40000 if c.thorough else 6000
+    n = 24000 if c.thorough else 6000
     cases = []
     for i in range(n):
         g = tmplgen.Gen(c.seed * 1000003 + i)
@@ -71,7 +71,7 @@ def main():
             with open(p, "a") as f:
                 f.write(json.dumps(e, separators=(",", ":")) + "\n")
             canary_line = len(evs) + 1
-        r = c.tlc("OracleTemplate", env={"TRACE": p}, name="OracleTemplate", timeout=3400, xmx="24g", xss="512m")
+        r = c.tlc("OracleTemplate", env={"TRACE": p}, name="OracleTemplate", timeout=6600, xmx="24g", xss="512m")
         bad = {t[1]: t[2] for t in r.tuples("MISMATCH")}
         if canary_line:
             skipped_c = canary_line in set(t[1] for t in r.tuples("SKIPPED"))
